@@ -1191,6 +1191,7 @@ fn report(prop: &str, check: &str, input: String, detail: String) {
 fn c12_one(t: &str) {
     let v = match vparse(t) { Ok(v) => v, Err(_) => return };
     let p = v.to_string();
+    if format!("{}", v) != p { report("C12", "to_string() is Display", t.to_string(), format!("`{}` vs `{}`", p, format!("{}", v))); }
     match vparse(&p) {
         Err(e) => report("C12", "the printed form of a parsed version parses back", t.to_string(), format!("printed `{}` ({} bytes) is rejected: {}", if p.len() > 80 { &p[..80] } else { &p }, p.len(), e)),
         Ok(w) => {
@@ -1218,6 +1219,28 @@ fn check_c12(level: u32, seed: u64) {
               "900719925474099.900719925474099.900719925474099", "1.2.3-900719925474100", "1.2.3-18446744073709551615", "1.2.3-18446744073709551616", "1.2.3-00018446744073709551615", "1.2.3+99999999999999999999999999",
               "1.2.3-A.a.B.b", "1.2.3-rc1.RC1", "0.0.0-0", "0.0.0+0", "1.2.3-a+b+c", "1.2.3+a-b", "1.2.3-a-b+c-d"] {
         c12_one(t);
+    }
+    // all-digit identifiers that do not fit u64 (kept as text), with and without leading zeros
+    for big in ["18446744073709551616", "0018446744073709551616", "00099999999999999999999", "000000000000000000000000000000000001", "0000000000000000000000", "99999999999999999999999999999999999999999"] {
+        c12_one(&format!("1.2.3-{}", big)); c12_one(&format!("1.2.3+{}", big)); c12_one(&format!("1.2.3-rc.{}+{}.x", big, big)); c12_one(&format!("1.2.3-{}.{}", big, big));
+    }
+    // values BUILT from canonical identifiers (not only values the parser returns): numeric identifiers over the whole u64 range,
+    // alphanumeric ones that do not look numeric
+    for n in [0u64, 1, 9, 10, 4294967295, 4294967296, 900719925474099, 900719925474100, 999999999999999, 1000000000000000, 20261002093000123, 9007199254740991, 9007199254740992, u64::MAX - 1, u64::MAX] {
+        for (pre, build) in [(vec![Identifier::Numeric(n)], vec![]), (vec![], vec![Identifier::Numeric(n)]), (vec![Identifier::AlphaNumeric("rc".into()), Identifier::Numeric(n)], vec![Identifier::Numeric(n), Identifier::AlphaNumeric("x-".into())])] {
+            let v = Version { major: 1, minor: 2, patch: 3, pre_release: pre.clone(), build: build.clone() };
+            let p = v.to_string();
+            if format!("{}", v) != p { report("C12", "to_string() is Display", format!("{:?}", v), format!("`{}` vs `{}`", p, format!("{}", v))); }
+            match vparse(&p) {
+                Err(e) => report("C12", "a version built from canonical identifiers prints to a text that parses", format!("{:?}", v), format!("`{}`: {}", p, e)),
+                Ok(w) => if w.major != 1 || w.minor != 2 || w.patch != 3 || w.pre_release != pre || w.build != build { report("C12", "a version built from canonical identifiers round-trips in all five fields", format!("{:?}", v), format!("printed `{}`, parsed back as {:?}", p, w)) },
+            }
+        }
+    }
+    for (a, b, c) in [(0u64, 0u64, 0u64), (900719925474099, 0, 900719925474099), (1, 900719925474099, 2)] {
+        let v = Version { major: a, minor: b, patch: c, pre_release: vec![Identifier::AlphaNumeric("-".into()), Identifier::AlphaNumeric("0a".into())], build: vec![Identifier::AlphaNumeric("a--b".into())] };
+        c12_one(&v.to_string());
+        match vparse(v.to_string()) { Ok(w) => if w.pre_release != v.pre_release || w.build != v.build || w.major != a || w.minor != b || w.patch != c { report("C12", "a version built from canonical identifiers round-trips in all five fields", format!("{:?}", v), format!("{:?}", w)) }, Err(e) => report("C12", "a version built from canonical identifiers prints to a text that parses", format!("{:?}", v), e.to_string()) }
     }
     // lengths at the limit: hyphenated (printed = same length) and the one hyphen-less boundary input of the known finding
     for n in [240usize, 249, 250] { c12_one(&format!("1.2.3-{}", "a".repeat(n))); c12_one(&format!("1.2.3+{}", "b".repeat(n))); c12_one(&format!("v 1.2.3-{}", "a.".repeat(n / 2 - 2) + "z")); }
